@@ -474,8 +474,57 @@ def eval_poly(ctx, case):
                 break
 
     correspondence(ctx, case, shape, poly, sphero, cls, angles, r, got, scale)
+    if ctx.evaluations % 3 == 0:
+        argument_glue(ctx, case, shape, cls, angles, scale)
     hypotheses(ctx, case, poly)
     requery_after_mutation(ctx, case, shape, sphero, cls, angles)
+
+
+def argument_glue(ctx, case, shape, cls, angles, scale):
+    """The answer must not depend on HOW the angles are passed (integer dtypes, lists, scalars, float32), and the
+    caller's array must come back bit for bit (also when it holds angles outside [0, 2 pi))."""
+    with np.errstate(all="ignore"):
+        a = np.array(angles, dtype=np.float64)
+        snap = a.tobytes()
+        try:
+            shape.distance_to_surface(a)
+        except Exception:  # noqa: BLE001  (judged by the main clause)
+            return
+        if a.tobytes() != snap:
+            ctx.fail(cls + ".distance_to_surface:argument-modified", "the caller's float64 angle array was changed by the "
+                     "query", case, {"first_changed": int(np.flatnonzero(a != np.frombuffer(snap, dtype=np.float64))[0])})
+        ints = np.arange(-3, 9)
+        try:
+            ref = np.array(shape.distance_to_surface(ints.astype(np.float64)), dtype=float)
+        except Exception:  # noqa: BLE001
+            return
+        forms = [("int64-array", ints.copy()), ("int-list", [int(i) for i in ints]), ("int32-array", ints.astype(np.int32)),
+                 ("float32-array", ints.astype(np.float32)), ("float-list", [float(i) for i in ints])]
+        for name, arg in forms:
+            keep = arg.copy() if isinstance(arg, np.ndarray) else list(arg)
+            try:
+                got = np.array(shape.distance_to_surface(arg), dtype=float).reshape(-1)
+            except Exception as e:  # noqa: BLE001
+                ctx.fail(cls + ".distance_to_surface:argument-type:" + name, "raised %s for whole-number angles passed as %s"
+                         % (exc_kind(e), name), case, repr(e))
+                continue
+            tol = (1e-4 if name == "float32-array" else 1e-12) * scale      # float32 in, float32 accuracy out is fine
+            if got.shape != ref.shape or not np.all(np.abs(got - ref) <= tol):
+                k = int(np.argmax(np.abs(got - ref))) if got.shape == ref.shape else 0
+                ctx.fail(cls + ".distance_to_surface:argument-type:" + name, "whole-number angles passed as %s give another "
+                         "answer than the same angles as float64" % name, case,
+                         {"angle": int(ints[k]), "got": float(got[k]) if got.size > k else None, "as_float64": float(ref[k])})
+            same = np.array_equal(np.asarray(arg), np.asarray(keep)) and (not isinstance(arg, np.ndarray) or arg.dtype == keep.dtype)
+            if not same:
+                ctx.fail(cls + ".distance_to_surface:argument-modified", "the caller's angle container (%s) was changed" % name,
+                         case, {})
+        try:
+            s0 = float(np.asarray(shape.distance_to_surface(2)).reshape(-1)[0])
+            if abs(s0 - float(ref[5])) > 1e-12 * scale:
+                ctx.fail(cls + ".distance_to_surface:argument-type:int-scalar", "a scalar integer angle gives another answer "
+                         "than the same angle as float64", case, {"got": s0, "as_float64": float(ref[5])})
+        except Exception:  # noqa: BLE001  (scalars are not promised)
+            pass
 
 
 def correspondence(ctx, case, shape, poly, sphero, cls, angles, r, got, scale):
